@@ -15,6 +15,7 @@ import Qv.Drv.C20
 import Qv.Drv.C18
 import Qv.Drv.C17
 import Qv.Drv.C16
+import Qv.Drv.C19
 /-! Line protocol: `<op> <json>` per line in, one JSON document per line out. -/
 open Lean
 
@@ -50,7 +51,9 @@ def handlers : List (String × (Json → Except String Json)) := [
   ("C17.coarsen", Qv.Drv.C17.coarsenJ),
   ("C17.meas", Qv.Drv.C17.measJ),
   ("C16.search", Qv.Drv.C16.searchJ),
-  ("C16.channel", Qv.Drv.C16.channelJ)
+  ("C16.channel", Qv.Drv.C16.channelJ),
+  ("C19.labels", Qv.Drv.C19.labelsJ),
+  ("C19.signs", Qv.Drv.C19.signsJ)
 ]
 
 def handle (line : String) : String :=
